@@ -447,7 +447,7 @@ func writeEvidence(pr *PropertyRun, prop, tier string, seed, discharged, nviol i
 	if len(samples) == 0 {
 		samples = append(samples, map[string]any{"note": "no obligations generated"})
 	}
-	var trusted []string
+	trusted := []string{}
 	for k := range pr.Trusted {
 		trusted = append(trusted, k)
 	}
